@@ -55,6 +55,12 @@ class C03(Prop):
             for e in r.printed:
                 if e[0] == "S" and e[1] % 4 == 0:
                     self.big.append((n, e[3]))
+        self.wide = []
+        r = self.model("MC_RotSim", "MC_RotSim_n66.cfg", name="rotsim_n66", workers=1, simulate="num=1", depth=8,
+                       seed=self.seed + 66, collect=True, timeout=1500)
+        for e in r.printed:
+            if e[0] == "S" and e[1] in (4, 8):
+                self.wide.append((66, e[3]))
 
     def scenarios(self):
         thorough = self.tier == "thorough"
@@ -102,6 +108,14 @@ class C03(Prop):
         for n, m in self.big:
             ins = [[rng.randrange(4) for _ in range(n)] + [rng.randrange(4)] for _ in range(40)]
             yield {"k": "tf", "kind": "list", "m": m, "ins": ins}
+        # one entangling map across the 64-bit word boundary (66 qubits, from a TLC walk): dense and sparse operators
+        for n, m in self.wide:
+            ins = [[rng.randrange(4) if (t % 2 == 0 or rng.random() < 0.1) else 0 for _ in range(n)] + [rng.randrange(4)] for t in range(40)]
+            for w in ins[:8]:
+                w[n - 1] = w[n - 1] or 1
+            yield {"k": "tf", "kind": "list", "m": m, "ins": ins}
+            yield {"k": "tf", "kind": "poly", "m": m, "ins": ins[:12], "pkg": "py"}
+            yield {"k": "tf", "kind": "list", "m": m, "ins": ins[:10], "mlayout": "inverse", "pkg": "py"}
             yield {"k": "tf", "kind": "kernel", "m": m, "ins": ins, "pkg": "py"}
         # one wide register: N = 40, a product of random one-qubit Cliffords (with two-qubit blocks in thorough),
         # applied to > 1024 low-weight operators with all phases (lists longer / registers wider than any fast path
